@@ -317,6 +317,17 @@ def eig_poly_ok(E, Mx, tol=TOL_RIC):
 
 class C11(Family):
     prop = "C11"
+    # source-text tie (notes/NOTES-py2lean-statefbk.md): Generated/Sfb*.lean are rewritten from
+    # control/statefbk.py / control/stochsys.py on every run; these modules prove model = generated
+    extra_modules = ["CtrlVerif.Props.C11GenGram", "CtrlVerif.Props.C11GenAcker", "CtrlVerif.Props.C11GenSpec",
+                     "CtrlVerif.Props.C11GenLqr", "CtrlVerif.Props.C11GenLqe"]
+
+    def pre_build(self):
+        import os
+        from core import py2lean_sfb, leanproj
+        problems, self.gen_info = py2lean_sfb.regenerate(os.environ.get("VERIF_REPO") or "/repo", leanproj.LEAN)
+        return problems
+
     externals = [
         "control.mateqn.care / dare (property C10; scipy.linalg.solve_continuous_are / "
         "solve_discrete_are underneath): contract = Riccati equation, gain formula, L = eig(A - B G)",
